@@ -71,6 +71,8 @@ pub enum Op {
     Bulk { size: usize, align: usize, count: usize },
     /// move the arena to another thread, run the nested ops there, move it back
     OnThread { ops: Vec<Op> },
+    /// the `n`-th callback (initialiser closure / Clone / iterator step) of the NEXT call panics
+    PanicAtCb { n: i64 },
     /// like Dealloc / Grow / Shrink, but the block is the `r`-th live block in address order
     /// (how behaviours generated from the TLA+ model refer to blocks)
     DeallocR { r: usize },
@@ -126,6 +128,7 @@ pub struct Event {
     pub sent: i64,         // sentinel virtual address
     pub salign: i64,       // alignment guaranteed by the sentinel's type
     pub follow: u8,        // 1 if this is a follow-up probe of the previous event
+    pub pp: u8,            // 1 if the programmed initialiser panic fired during this call
     pub clos: String,      // closure kind for try_with
     pub closk: i64,        // 0 nothing, 1 keep(n), 2 release(n), 3 zero-sized
     pub closn: i64,
@@ -255,6 +258,25 @@ thread_local! {
     static STORES: RefCell<Vec<[i64; 3]>> = const { RefCell::new(Vec::new()) };
 }
 
+thread_local! {
+    static CB_COUNT: std::cell::Cell<i64> = const { std::cell::Cell::new(0) };
+    static CB_PANIC_AT: std::cell::Cell<i64> = const { std::cell::Cell::new(-1) };
+    static CB_FIRED: std::cell::Cell<bool> = const { std::cell::Cell::new(false) };
+}
+
+/// Called by every harness callback (initialiser closure, Clone, iterator step): the programmed one panics.
+fn cb_tick() {
+    let n = CB_COUNT.with(|c| {
+        let n = c.get();
+        c.set(n + 1);
+        n
+    });
+    if n == CB_PANIC_AT.with(|c| c.get()) {
+        CB_FIRED.with(|c| c.set(true));
+        panic!("programmed initialiser panic");
+    }
+}
+
 fn store_sink(footer: usize, is_sentinel: bool, site: u8) {
     let _g = rec::pause();
     let v = to_v(footer);
@@ -299,6 +321,7 @@ struct Cl<T: Copy>(T);
 struct LogClone<T: Copy>(T, i64);
 impl<T: Copy> Clone for LogClone<T> {
     fn clone(&self) -> Self {
+        cb_tick();
         let _g = rec::pause();
         SH.with(|s| s.borrow_mut().cb.push(self.1));
         LogClone(self.0, self.1)
@@ -478,6 +501,8 @@ impl<const M: usize> St<M> {
             s.errdrops = 0;
         });
         STORES.with(|s| s.borrow_mut().clear());
+        CB_COUNT.with(|c| c.set(0));
+        CB_FIRED.with(|c| c.set(false));
         let mut bump = self.bump.take();
         rec::begin();
         let r = catch_unwind(AssertUnwindSafe(|| f(&mut bump)));
@@ -485,6 +510,8 @@ impl<const M: usize> St<M> {
         rec::clear_panicking();
         let hung = rec::take_hung();
         let pmsg = rec::take_panic_msg();
+        ev.pp = CB_FIRED.with(|c| c.get()) as u8;
+        CB_PANIC_AT.with(|c| c.set(-1));
         self.bump = bump;
         let out = match r {
             Ok(o) => o,
@@ -565,6 +592,7 @@ fn do_val<const M: usize, T: Copy + 'static>(st: &mut St<M>, with: bool, fallibl
             None => return Out::None,
         };
         let f = || {
+            cb_tick();
             let _g = rec::pause();
             SH.with(|s| s.borrow_mut().cb.push(0));
             v
@@ -750,6 +778,7 @@ fn do_fill<const M: usize, T: Copy + Default + 'static>(st: &mut St<M>, len: usi
             None => return Out::None,
         };
         let logf = |i: usize| {
+            cb_tick();
             let _g = rec::pause();
             SH.with(|s| s.borrow_mut().cb.push(i as i64));
         };
@@ -825,6 +854,7 @@ fn do_fill<const M: usize, T: Copy + Default + 'static>(st: &mut St<M>, len: usi
 struct CountClone<T: Copy>(T);
 impl<T: Copy> Clone for CountClone<T> {
     fn clone(&self) -> Self {
+        cb_tick();
         let _g = rec::pause();
         SH.with(|s| {
             let mut s = s.borrow_mut();
@@ -911,6 +941,7 @@ fn do_try_with<const M: usize, T: Copy + 'static, E: Copy + 'static>(
             None => return Out::None,
         };
         let f = || -> R<T, E> {
+            cb_tick();
             {
                 let _g = rec::pause();
                 SH.with(|s| s.borrow_mut().cb.push(0));
@@ -982,6 +1013,7 @@ fn do_try_fill<const M: usize, T: Copy + 'static>(st: &mut St<M>, len: usize, fa
             None => return Out::None,
         };
         let mut f = |i: usize| -> Result<T, ErrTok<u64>> {
+            cb_tick();
             let _g = rec::pause();
             SH.with(|s| s.borrow_mut().cb.push(i as i64));
             if fail_at >= 0 && i as i64 == fail_at {
@@ -1469,6 +1501,7 @@ fn step<const M: usize>(st: &mut St<M>, op: &Op) {
                 }
             }
         }
+        Op::PanicAtCb { n } => CB_PANIC_AT.with(|c| c.set(*n)),
         Op::DeallocR { r } => {
             if let Some(b) = rank_to_index(*r) {
                 step(st, &Op::Dealloc { b });
